@@ -122,6 +122,7 @@ class Ctx(object):
         self.tier = tier
         self.config = config
         apply_adt_moves(facts)
+        apply_new_consts(facts)
         apply_variant_shapes(facts)
         apply_aliases(facts)
         apply_param_orders(facts)
@@ -669,6 +670,121 @@ def apply_adt_moves(facts):
     facts.clear()
     facts.update(out)  # in place: the fact set is shared by every property evaluated on it
     return facts
+
+
+def apply_new_consts(facts):
+    """A constant the oracle vocabulary does not know whose value is a literal (or a constructor applied to literals) is a
+    name for that value: every mention of it -- as an expression or as a pattern -- is replaced by the value, so the
+    HIR-level readers see what the tables see. Done once per fact set, in place."""
+    meta = facts.setdefault('meta', {})
+    if meta.get('new_consts') is not None:
+        return meta['new_consts']
+    meta['new_consts'] = {}
+    try:
+        with open(os.path.join(VERIF, 'spec', 'vocabulary_consts.txt')) as fh:
+            known = set(l.strip() for l in fh if l.strip() and not l.startswith('#'))
+    except IOError:
+        return {}
+
+    pending = {}
+    for c in facts.get('consts', []):
+        cp = S.norm_path(c['path'])
+        if cp not in known and 'hir' in c and not c.get('cfg_test'):
+            pending[cp] = c['hir']
+    vals = {}
+
+    def simple(n, depth=0):
+        """the literal (or constructor applied to literals) an expression is, following other new constants and lossless casts"""
+        n = H.peel(n) if isinstance(n, dict) else n
+        if not isinstance(n, dict) or depth > 6:
+            return None
+        k = n.get('k')
+        if k == 'Block' and not n.get('stmts') and n.get('expr') is not None:
+            return simple(n['expr'], depth + 1)
+        if k == 'Lit':
+            return n
+        if k == 'Cast':
+            v = simple(n.get('e'), depth + 1)
+            if v is not None and v.get('k') == 'Lit' and (v.get('v') or {}).get('t') == 'int' and n.get('to') in H._INTS:
+                return dict(v, ty=n.get('to'))
+            return None
+        if k == 'Def' and 'Const' in (n.get('dk') or ''):
+            cp = S.norm_path(n.get('resolved') or n.get('path') or '')
+            if cp in vals:
+                return vals[cp]
+            if cp in pending:
+                return simple(pending[cp], depth + 1)
+            return None
+        if k == 'Call' and (n.get('f') or {}).get('dk', '').startswith('Ctor') and n.get('args'):
+            args = [simple(a, depth + 1) for a in n['args']]
+            if all(a is not None and a.get('k') == 'Lit' for a in args):
+                return dict(n, args=args)
+        return None
+    for cp, h in pending.items():
+        v = simple(h)
+        if v is not None:
+            vals[cp] = v
+    if not vals:
+        return {}
+
+    def as_pat(v):
+        if v.get('k') == 'Lit':
+            return {'k': 'PLit', 'v': v['v'], 'neg': False}
+        return {'k': 'PTupleStruct', 'res': dict(v['f']), 'pats': [as_pat(H.peel(a)) for a in v['args']], 'dd': None}
+
+    import copy
+
+    def fix(n):
+        if isinstance(n, dict):
+            for key, v in list(n.items()):
+                if isinstance(v, dict):
+                    k = v.get('k')
+                    if k == 'Def' and 'Const' in (v.get('dk') or '') and S.norm_path(v.get('resolved') or v.get('path') or '') in vals and key not in ('f', 'res'):
+                        rep = copy.deepcopy(vals[S.norm_path(v.get('resolved') or v.get('path'))])
+                        rep['sp'] = v.get('sp', rep.get('sp'))
+                        if v.get('ty'):
+                            rep['ty'] = v['ty']
+                        n[key] = rep
+                        continue
+                    if k == 'PPath' and 'Const' in ((v.get('res') or {}).get('dk') or '') and S.norm_path((v.get('res') or {}).get('path') or '') in vals:
+                        n[key] = as_pat(vals[S.norm_path(v['res']['path'])])
+                        continue
+                    fix(v)
+                elif isinstance(v, list):
+                    for i, x in enumerate(v):
+                        if isinstance(x, dict):
+                            k = x.get('k')
+                            if k == 'Def' and 'Const' in (x.get('dk') or '') and S.norm_path(x.get('resolved') or x.get('path') or '') in vals:
+                                rep = copy.deepcopy(vals[S.norm_path(x.get('resolved') or x.get('path'))])
+                                rep['sp'] = x.get('sp', rep.get('sp'))
+                                if x.get('ty'):
+                                    rep['ty'] = x['ty']
+                                v[i] = rep
+                                continue
+                            if k == 'PPath' and 'Const' in ((x.get('res') or {}).get('dk') or '') and S.norm_path((x.get('res') or {}).get('path') or '') in vals:
+                                v[i] = as_pat(vals[S.norm_path(x['res']['path'])])
+                                continue
+                            fix(x)
+                        elif isinstance(x, list):
+                            fix(x)
+        elif isinstance(n, list):
+            for i, x in enumerate(n):
+                if isinstance(x, dict):
+                    k = x.get('k')
+                    if k == 'Def' and 'Const' in (x.get('dk') or '') and S.norm_path(x.get('resolved') or x.get('path') or '') in vals:
+                        rep = copy.deepcopy(vals[S.norm_path(x.get('resolved') or x.get('path'))])
+                        rep['sp'] = x.get('sp', rep.get('sp'))
+                        n[i] = rep
+                        continue
+                    if k == 'PPath' and 'Const' in ((x.get('res') or {}).get('dk') or '') and S.norm_path((x.get('res') or {}).get('path') or '') in vals:
+                        n[i] = as_pat(vals[S.norm_path(x['res']['path'])])
+                        continue
+                fix(x)
+    for fn in facts['fns']:
+        if 'hir' in fn:
+            fix(fn)
+    meta['new_consts'] = sorted(vals)
+    return meta['new_consts']
 
 
 def apply_param_orders(facts):
